@@ -472,7 +472,10 @@ func (c *Client) Get(
 		if err := c.logs(ctx, url, filter, bm, start, limit); err != nil {
 			return nil, fmt.Errorf("getting logs: %w", err)
 		}
-	case filter.UseTraces:
+	}
+	// traces come from their own request: a plan with receipts (or
+	// logs) and traces needs both
+	if filter.UseTraces {
 		if err := c.traces(ctx, url, bm, start, limit); err != nil {
 			return nil, fmt.Errorf("getting traces: %w", err)
 		}
